@@ -618,7 +618,21 @@ impl Executor for Session {
                     Ok(authority) => authority,
                     Err(err) => return Response::from(err),
                 };
-                let base = base_authorizations(&authority, &auth, gate::kql_permissions(&query));
+                let mut needed = gate::kql_permissions(&query);
+                // A request that binds its reads to a snapshot token reads the
+                // past exactly as `AS OF` does, so it asks for the same thing:
+                // `read_history` on top of `read`. The token is not a
+                // capability - it spells a Space id and a sequence - so holding
+                // one proves nothing about having been allowed to take it.
+                if request
+                    .read
+                    .as_ref()
+                    .is_some_and(|read| read.snapshot_token.is_some())
+                    && !needed.contains(&Permission::ReadHistory)
+                {
+                    needed.push(Permission::ReadHistory);
+                }
+                let base = base_authorizations(&authority, &auth, needed);
                 let _approval_guard = self.approval_guard(&base).await;
                 let decisions = match self.gate(&authority, &auth, base).await {
                     Ok(decisions) => decisions,
